@@ -205,8 +205,13 @@ pub fn panic_message(p: &Box<dyn std::any::Any + Send>) -> String {
 
 /// Run a query on the calling simulated thread; panics in the caller become `QErr::Panic`.
 pub fn run_query(db: &LocustDB, sql: &str) -> Result<QOut, QErr> {
+    run_query_fmt(db, sql, true)
+}
+
+/// `rowformat` as in `LocustDB::run_query`: whether the row view is materialised too
+pub fn run_query_fmt(db: &LocustDB, sql: &str, rowformat: bool) -> Result<QOut, QErr> {
     rt::core::log("q_invoke", || rt::core::truncate(sql, 200));
-    let r = catch(AssertUnwindSafe(|| rt::block_on(db.run_query(sql, false, true, vec![]))));
+    let r = catch(AssertUnwindSafe(|| rt::block_on(db.run_query(sql, false, rowformat, vec![]))));
     let out = match r {
         Ok(Ok(o)) => Ok(convert_output(&o)),
         Ok(Err(e)) => Err(QErr::Err(query_error_kind(&e).to_string(), rt::core::truncate(&String::from_utf8_lossy(format!("{e}").as_bytes()), 300))),
@@ -445,8 +450,20 @@ impl Env {
                 self.count(&key);
             }
         }
-        let eb = wire::event_buffer_for(req);
-        let r = catch(AssertUnwindSafe(|| rt::block_on(db.ingest_efficient(eb))));
+        let r = if req.path == IngestPath::Http {
+            // through the server's binary insert endpoint
+            match crate::http::insert(&db, req) {
+                Ok(o) if o.status == 200 => Ok(()),
+                Ok(o) => {
+                    self.violate("http:insert_refused", format!("/insert_bin answered {} for request {}: {}", o.status, req.id, rt::core::truncate(&String::from_utf8_lossy(&o.body), 200)));
+                    return;
+                }
+                Err(m) => Err(Box::new(m) as Box<dyn std::any::Any + Send>),
+            }
+        } else {
+            let eb = wire::event_buffer_for(req);
+            catch(AssertUnwindSafe(|| rt::block_on(db.ingest_efficient(eb))))
+        };
         sched::progress();
         match r {
             Ok(()) => {
